@@ -15,7 +15,7 @@ def _infer(job):
         v, st = tvinfer.validate(w, ir, bc, fuse)
     except Exception as e:   # malformed dump or an inference bug: reported like a rejection
         return "reject: inference failed: %r" % (e,), ""
-    return v, st.get("cert", "")
+    return v, st.get("zeros", "") + "|" + st.get("cert", "")
 
 
 def run(res, prop, cases, levels, regs, fuse, backend, max_report=4):
